@@ -21,7 +21,7 @@ open KMap
 structure Inv (cfg : Cfg) (c : Chain) : Prop where
   sinv : SInv c.st
   sorted : c.st.queue.Pairwise (fun a b => a.payoutAt ≤ b.payoutAt)
-  queue_bound : ∀ u ∈ c.st.queue, u.payoutAt ≤ c.time + c.st.info.unbondingTime
+  queue_bound : ∀ u ∈ c.st.queue, u.payoutAt ≤ c.time + NS * c.st.info.unbondingTime
   covered : totalStake c.st.vinfo + queueTotal c.st.queue ≤ poolBal cfg c
   last_le : LastLe c.st c.time
   no_pool : ∀ u ∈ c.st.queue, u.delegator ≠ cfg.pool
